@@ -64,7 +64,7 @@ theorem evalOps_denotes (root : Node) (strict : Bool) (ops : List Op) (el : Pos)
   rw [this, flatMapM_singleton]
 
 /-- `[:][:]` on a list of two lists: document order, level by level -/
-example : (match evalOps (.mk .list [] [.mk .list [] [.mk .scalar [] [], .mk .scalar [] []], .mk .list [] [.mk .scalar [] []]])
+example : (match evalOps (.mk .list [] [] [.mk .list [] [] [.mk .scalar [] [] [], .mk .scalar [] [] []], .mk .list [] [] [.mk .scalar [] [] []]])
       true [.slice none none none, .slice none none none] [] with
     | .ok l => l == [[0, 0], [0, 1], [1, 0]]
     | .error _ => false) = true := by
@@ -244,7 +244,7 @@ theorem single_spec (root : Node) (start : Pos) (path : Str) (strict : Bool) (op
     | p :: q :: r => rfl
 
 /-- `[:]` with `single=True, strict=True` on a Dict with two fields raises -/
-example : (match findResOf true true (denOps (.mk .map [] [.mk .scalar ['a'] [], .mk .scalar ['b'] []]) true
+example : (match findResOf true true (denOps (.mk .map [] [] [.mk .scalar ['a'] ['a'] [], .mk .scalar ['b'] ['b'] []]) true
       [.slice none none none] []) with
     | .err .lookup => true
     | _ => false) = true := by decide
@@ -258,14 +258,14 @@ theorem kidsAt_length (root : Node) (el : Pos) :
 
 theorem findName_eq (s : Str) : ∀ kids : List Node,
     findName s kids =
-      (let i := kids.findIdx (fun k => k.name == s); if i < kids.length then some i else none)
+      (let i := kids.findIdx (fun k => k.key == s); if i < kids.length then some i else none)
   | [] => by simp [findName]
   | k :: r => by
     simp only [findName, List.findIdx_cons, List.length_cons]
-    by_cases h : (k.name == s) = true
+    by_cases h : (k.key == s) = true
     · simp [h]
     · simp only [h, Bool.false_eq_true, if_false, cond_false, findName_eq s r]
-      by_cases h2 : List.findIdx (fun k => k.name == s) r < r.length
+      by_cases h2 : List.findIdx (fun k => k.key == s) r < r.length
       · simp [h2]
       · simp [h2]
 
@@ -289,7 +289,16 @@ theorem indexAt_eq_childNamed (root : Node) (el : Pos) (s : Str) :
         = (pyInt s).bind (pyListIndex n.kids.length)
       cases pyInt s <;> rfl
 
-theorem stepDen_onlyLookup (root : Node) (strict : Bool) (s : Step) (el : Pos) :
+theorem stride_ne_zero (a b : Option Int) (c : Option (Option Int)) (h : Step.wf (.slice a b c) = true) :
+    (Step.stride c == some 0) = false := by
+  match c, h with
+  | none, _ => rfl
+  | some none, _ => rfl
+  | some (some v), h =>
+    simp only [Step.wf, bne_iff_ne, ne_eq] at h
+    simp [Step.stride, h]
+
+theorem stepDen_onlyLookup (root : Node) (strict : Bool) (s : Step) (hs : s.wf = true) (el : Pos) :
     OnlyLookup (stepDen root strict s el) := by
   intro e h
   unfold stepDen at h
@@ -302,7 +311,7 @@ theorem stepDen_onlyLookup (root : Node) (strict : Bool) (s : Step) (el : Pos) :
     · simp at h
     · split at h <;> simp at h; exact h.symm
   | negidx k => simp at h
-  | slice a b c => simp at h
+  | slice a b c => simp [stride_ne_zero a b c hs] at h
 
 theorem compileStep_stepOk (s : Step) (h : s.wf = true) : Op.stepOk (compileStep s) = true := by
   cases s with
@@ -363,7 +372,7 @@ theorem denOps_step (root : Node) (strict : Bool) (s : Step) (hs : s.wf = true) 
     rw [hA, denOps_slice _ _ _ _ _ (by rfl), pySlice_negidx]
     simp only [stepDen, andThen_ok]
   | slice a b c =>
-    simp only [stepDen, andThen_ok]
+    simp only [stepDen, stride_ne_zero a b c hs, Bool.false_eq_true, if_false, andThen_ok]
     match a, b, c, hs with
     | none, none, none, _ => rw [compileStep, denOps_slice _ _ _ _ _ (by rfl)]; rfl
     | none, none, some none, _ => rw [compileStep, denOps_slice _ _ _ _ _ (by rfl)]; rfl
@@ -415,7 +424,7 @@ theorem denOps_steps (root : Node) (strict : Bool) :
     have hfun : denOps root strict ((s :: r).map compileStep)
         = fun el => andThen (stepDen root strict s el) (flatMapM (denOps root strict (r.map compileStep))) :=
       funext (fun el => by rw [List.map_cons, denOps_step root strict s hwf.1])
-    rw [hfun, flatMapM_bind _ _ (stepDen_onlyLookup root strict s)
+    rw [hfun, flatMapM_bind _ _ (stepDen_onlyLookup root strict s hwf.1)
       (denOps_onlyLookup root strict _ (compile_noZero r hwf.2))]
     simp only [denoteSteps]
     cases flatMapM (stepDen root strict s) cur with
@@ -713,11 +722,11 @@ def C14_Full : Prop :=
     LookupError, the code (which cancels `nosuch/..` first) returns the start element -/
 theorem C14_full_fails : ¬ C14_Full := by
   intro h
-  have := h (.mk .map [] [.mk .scalar ['a'] []]) true ⟨false, [.name ['n'], .up]⟩ [] (by decide)
+  have := h (.mk .map [] [] [.mk .scalar ['a'] ['a'] []]) true ⟨false, [.name ['n'], .up]⟩ [] (by decide)
   rw [evalOps_denotes _ _ _ _ (by decide)] at this
-  have h1 : denOps (.mk .map [] [.mk .scalar ['a'] []]) true
+  have h1 : denOps (.mk .map [] [] [.mk .scalar ['a'] ['a'] []]) true
       (canonicalize (compile ⟨false, [.name ['n'], .up]⟩)) [] = .ok [[]] := by decide
-  have h2 : denote ⟨false, [.name ['n'], .up]⟩ (.mk .map [] [.mk .scalar ['a'] []]) [] true
+  have h2 : denote ⟨false, [.name ['n'], .up]⟩ (.mk .map [] [] [.mk .scalar ['a'] ['a'] []]) [] true
       = .error .lookup := by decide
   rw [h1, h2] at this
   cases this
@@ -905,6 +914,47 @@ theorem eval_cancel_denotes (root : Node) (strict : Bool) (p : Spec.Path)
 
 /-! ### tokenizer ∘ printer -/
 
+theorem wfLast_stepwf (c : CStep) (h : c.wfLast = true) : c.step.wf = true := by
+  simp only [CStep.wfLast, Bool.and_eq_true] at h; exact h.1
+
+theorem wf_stepwf (c : CStep) (h : c.wf = true) : c.step.wf = true := by
+  simp only [CStep.wf, Bool.and_eq_true] at h; exact h.1
+
+theorem wfSteps_stepwf (trail : Bool) : ∀ cs : List CStep, wfSteps trail cs = true →
+    ∀ c ∈ cs, c.step.wf = true
+  | [], _, c, hc => by simp at hc
+  | [x], h, c, hc => by
+    simp only [List.mem_singleton] at hc; subst hc
+    simp only [wfSteps] at h
+    cases trail with
+    | true => exact wf_stepwf c (by simpa using h)
+    | false => exact wfLast_stepwf c (by simpa using h)
+  | x :: y :: r, h, c, hc => by
+    simp only [wfSteps, Bool.and_eq_true] at h
+    simp only [List.mem_cons] at hc
+    rcases hc with hc | hc
+    · subst hc; exact wf_stepwf c h.1
+    · exact wfSteps_stepwf trail (y :: r) h.2 c (by simpa using hc)
+
+theorem stepsOK_of_wf (trail : Bool) : ∀ cs : List CStep, wfSteps trail cs = true →
+    (∀ c ∈ cs, StepFits c.step) → StepsOK trail cs
+  | [], _, _ => trivial
+  | [x], h, hf => by
+    simp only [wfSteps] at h
+    simp only [StepsOK, List.isEmpty_nil, Bool.true_and, and_true]
+    cases trail with
+    | true =>
+      have hx : CStepOK x := ⟨by simpa using h, hf x (by simp)⟩
+      simpa using hx
+    | false =>
+      have hx : CStepOKW x := ⟨by simpa using h, hf x (by simp)⟩
+      simpa using hx
+  | x :: y :: r, h, hf => by
+    simp only [wfSteps, Bool.and_eq_true] at h
+    simp only [StepsOK, List.isEmpty_cons, Bool.false_and, Bool.false_eq_true, if_false]
+    exact ⟨⟨h.1, hf x (by simp)⟩,
+      by simpa [StepsOK] using stepsOK_of_wf trail (y :: r) h.2 (fun c hc => hf c (by simp [hc]))⟩
+
 /-- **tokenizer ∘ printer, whole concrete syntax**: every well-formed concrete path — leading and
     trailing slash, `..`/`.` anywhere, names with minimal or full escaping, `[n]` or `/n`,
     `[-n]`, `[a:b]`, `[a:b:c]` with any omitted bounds, bracket steps attached directly or with a
@@ -914,12 +964,7 @@ theorem tokenize_print (p : CPath) (hwf : p.wf = true) (hfit : ∀ c ∈ p.steps
     tokenize (print p) = .ok
       (if p.steps.any (fun c => c.step.isUp || c.step.isHere) then canonicalize (compile p.abstract)
        else compile p.abstract) := by
-  have hall : ∀ c ∈ p.steps, CStepOK c := by
-    intro c hc
-    refine ⟨?_, hfit c hc⟩
-    simp only [CPath.wf, List.all_eq_true] at hwf
-    exact hwf c hc
-  rw [tokenize_print_aux p hall]
+  rw [tokenize_print_aux p (stepsOK_of_wf p.trail p.steps hwf hfit)]
   have : p.steps.all (fun c => notDot c.step) = !p.steps.any (fun c => c.step.isUp || c.step.isHere) := by
     simp only [notDot]
     induction p.steps with
@@ -935,12 +980,9 @@ theorem find_print_denotes (root : Node) (start : Pos) (p : CPath) (single stric
     (hwf : p.wf = true) (hfit : ∀ c ∈ p.steps, StepFits c.step) (hc : Canon p.abstract = true) :
     find root start (print p) single strict = findSpec p.abstract root start single strict := by
   have hwf' : p.abstract.steps.all Step.wf = true := by
-    simp only [CPath.abstract, List.all_map]
-    simp only [CPath.wf, List.all_eq_true] at hwf ⊢
+    simp only [CPath.abstract, List.all_map, List.all_eq_true]
     intro c hc'
-    have := hwf c hc'
-    simp only [CStep.wf, Bool.and_eq_true] at this
-    exact this.1
+    exact wfSteps_stepwf p.trail p.steps hwf c hc'
   rw [find_denotes, tokenize_print p hwf hfit]
   have hden : denOps root strict
       (if p.steps.any (fun c => c.step.isUp || c.step.isHere) then canonicalize (compile p.abstract)
@@ -971,12 +1013,9 @@ theorem find_print_cancel (root : Node) (start : Pos) (p : CPath) (single strict
     (hwf : p.wf = true) (hfit : ∀ c ∈ p.steps, StepFits c.step) :
     find root start (print p) single strict = findSpec (cancel p.abstract) root start single strict := by
   have hwf' : p.abstract.steps.all Step.wf = true := by
-    simp only [CPath.abstract, List.all_map]
-    simp only [CPath.wf, List.all_eq_true] at hwf ⊢
+    simp only [CPath.abstract, List.all_map, List.all_eq_true]
     intro c hc'
-    have := hwf c hc'
-    simp only [CStep.wf, Bool.and_eq_true] at this
-    exact this.1
+    exact wfSteps_stepwf p.trail p.steps hwf c hc'
   rw [find_denotes, tokenize_print p hwf hfit]
   have hden : denOps root strict
       (if p.steps.any (fun c => c.step.isUp || c.step.isHere) then canonicalize (compile p.abstract)
@@ -1194,6 +1233,52 @@ theorem find_sorted (root : Node) (start : Pos) (p : CPath) (strict : Bool) (res
     simp only [FindRes.many.injEq] at h
     subst h
     exact denote_sorted root strict p.abstract hc hasc start l hd
+
+/-! ### a slice step written as zero (KF-C14-b) -/
+
+/-- `[::0]`: the concrete path the grammar's "zero step" denotes -/
+def zeroStepPath : CPath := ⟨false, false, [⟨.slice none none (some (some 0)), {}⟩]⟩
+
+/-- `_parse_slice` reads the stride with `int(s) or 1`: a zero step becomes 1 -/
+theorem natStr_zero : natStr 0 = ['0'] := by rw [natStr]; rfl
+
+theorem print_zeroStepPath : print zeroStepPath = ['[', ':', ':', '0', ']'] := by
+  simp [print, zeroStepPath, printSteps, CStep.text, optIntStr, intStr, natStr_zero]
+
+theorem zero_stride_reads_as_one :
+    tokenize (print zeroStepPath) = .ok [.slice none none (some 1)] := by
+  have hp : (['[', ':', ':', '0', ']'] : Str) = piecesText [Piece.br [':', ':', '0']] := by decide
+  have hbr : BrOK [':', ':', '0'] := ⟨by decide, by decide, by decide⟩
+  have hps : parseSlice [':', ':', '0'] = some (.slice none none (some 1)) := by decide
+  have hok : PiecesOK .start [Piece.br [':', ':', '0']] := by
+    simp only [PiecesOK]; exact ⟨hbr, trivial⟩
+  unfold tokenize
+  rw [print_zeroStepPath, hp, scan_pieces _ none .start hok (by simp)]
+  simp only [List.map_cons, List.map_nil, Piece.raw, tokLoop]
+  rw [tokStep_br {} _ _ (by simp) hps]
+  rfl
+
+/-- the property with a zero step in its quantifier: `[a:b:0]` should select what the Python slice
+    `a:b:0` selects, i.e. raise `ValueError` as soon as an element is reached -/
+def C14_ZeroStep : Prop :=
+  ∀ (root : Node) (start : Pos) (strict : Bool),
+    find root start (print zeroStepPath) false strict = findSpec zeroStepPath.abstract root start false strict
+
+/-- KF-C14-b: on a one-member list `find('[::0]')` returns the member (the result for `[::1]`)
+    where Python's slice raises -/
+theorem C14_zero_step_fails : ¬ C14_ZeroStep := by
+  intro h
+  have := h (.mk .list ['l'] ['l'] [.mk .scalar [] [] []]) [] true
+  unfold find at this
+  rw [zero_stride_reads_as_one] at this
+  simp only at this
+  rw [evalOps_denotes _ _ _ _ (by decide)] at this
+  have h1 : denOps (.mk .list ['l'] ['l'] [.mk .scalar [] [] []]) true [.slice none none (some 1)] []
+      = .ok [[0]] := by decide
+  have h2 : denote zeroStepPath.abstract (.mk .list ['l'] ['l'] [.mk .scalar [] [] []]) [] true
+      = .error .value := by decide
+  simp only [h1, findSpec, h2] at this
+  simp at this
 
 /-- a name step written as a segment (not as `[n]`), for a name the grammar can spell -/
 def NameSeg (c : CStep) : Prop := ∃ s, c.step = .name s ∧ c.sp.bracket = false ∧ GoodName s = true
